@@ -522,7 +522,11 @@ def children_table(ctx, gx):
                     continue
                 elem = _loop_elem(ev)
                 pre = ev[5]
-                mapping = {elem: C(exported), objp: C(queried)}
+                # the scenario of a pair: exactly one exported path (so a
+                # test that asks the table again - `x in exportedObjects` -
+                # folds too: only that one path is in it)
+                mapping = {elem: C(exported), objp: C(queried),
+                           exp: ('tuple', (C(exported),))}
                 for bp in ev[4]:
                     f2 = True
                     for c, pol in bp.cond:
@@ -549,10 +553,22 @@ def children_table(ctx, gx):
                     if apps:
                         v = subst_fold(apps[-1][3][0], mapping)
                         got.add(v[1] if is_const(v) else term_str(v)[:40])
-                    elif not any(contains(c, lambda x: kind(x) in (
-                            'loopvar', 'prefix', 'starseq'))
-                            for c, pol in bp.cond):
-                        got.add(None)
+                    else:
+                        # not listed on this path - unless the path is the
+                        # one on which the name was found listed already
+                        acc = lambda x: kind(x) in ('loopvar', 'prefix',
+                                                    'starseq')
+                        already = unclear = False
+                        for c, pol in bp.cond:
+                            if not contains(c, acc):
+                                continue
+                            if kind(c) == 'cmp' and c[1] in ('in', 'not in') \
+                                    and contains(c[3], acc):
+                                already = already or ((c[1] == 'in') == pol)
+                            else:
+                                unclear = True
+                        if not already and not unclear:
+                            got.add(None)
                 break
         n += 1
         got.discard(None) if child is not None and len(got) > 1 else None
@@ -629,6 +645,34 @@ def children_once(ctx, gx):
     name = node_lists[0]
     ok = False
     how = 'no de-duplication recognised'
+    # decided on the paths first: every turn of a loop that appends X to the
+    # list has tested `X not in <the whole list>` on its way (whatever the
+    # spelling: nested if, guard clause with continue, and/or)
+    n_app = n_guarded = 0
+    for p in Interp(prog, exc_edges=False).run(gx):
+        for ev in p.trace:
+            if ev[0] != 'loop':
+                continue
+            for bp in ev[4]:
+                for e in bp.trace:
+                    if e[0] != 'mutate' or e[2] != 'append' or \
+                            not contains(e[1], lambda x: kind(x) == 'prefix'
+                                         and x[2] == name):
+                        continue
+                    n_app += 1
+                    arg = e[3][0] if e[3] else None
+                    if any(kind(c) == 'cmp' and c[1] in ('in', 'not in') and
+                           c[2] == arg and c[3] == e[1] and
+                           (c[1] == 'not in') == pol
+                           for c, pol in bp.cond):
+                        n_guarded += 1
+        break
+    if n_app and n_app == n_guarded:
+        ctx.ob('C16.D4', gx.qualname, 'children-listed-once', True,
+               'every immediate child must be listed once however many '
+               'exported objects live beneath it; every append is preceded '
+               'by `not in` the whole list')
+        return
     for n in prog._iter_scope(gx.node):
         # guarded append: if x not in <name>: <name>.append(x)
         if isinstance(n, ast.If):
